@@ -87,6 +87,7 @@ Inductive case :=
 
 (* result codes: 0 = agree; 1..9 = the model differs from the implementation; >= 10 = the
    implementation fails a property oracle *)
+Local Open Scope N_scope.
 Definition check_case (fill : byte) (c : case) : N :=
   match c with
   | CRead T doc pw cls key =>
@@ -115,13 +116,16 @@ Definition check_case (fill : byte) (c : case) : N :=
                   | _ => 12
                   end
                 else
-                  (* leniently formed document (member-name case, duplicates, null members, 0x...): the
-                     decoded content must satisfy the V3 acceptance conditions *)
-                  match model with
-                  | Ok w => if v3_content_ok P w pw then
-                              (if bytes_eqb (cc_cipher (w_crypto w)) cipherAES128ctr then 0 else 13)
-                            else 14
-                  | _ => 0                                    (* reported as code 1 below *)
+                  (* leniently formed document (member-name case, duplicates, null or absent members,
+                     0x...): the decoded content must satisfy the V3 acceptance conditions and give this key *)
+                  match decode_content P t with
+                  | Some c =>
+                      match content_key P c pw with
+                      | Some k => if negb (bytes_eqb k key) then 12
+                                  else if cipher_bad c then 13 else 0
+                      | None => 14                            (* malformed / MAC-invalid content accepted *)
+                      end
+                  | None => 14
                   end
             end
           else 0 in
